@@ -122,7 +122,7 @@ Definition run_case5 (l : list Z) : list (list Z) :=
    however many run at once there is exactly one distinct result: the sequential one *)
 Definition run_conc (l : list Z) : list (list Z) :=
   match l with
-  | _ :: _ :: inner => [93; 1] :: run_case5 inner
+  | _ :: _ :: inner => [93; 1] :: [94; 1] :: run_case5 inner
   | _ => [[0]]
   end.
 Definition run_case6 (l : list Z) : list (list Z) :=
